@@ -242,7 +242,7 @@ def _replay_std_n(K):
         from pyrepseq import stats
         c = np.array([int(inputs[f"c{i}"]) for i in range(K)])
         a, b = stats.stdpc_n(c), stats.varpc_n(c) ** 0.5
-        ok = (a != a and b != b) or abs(a - b) <= 1e-12 * max(1.0, abs(b))
+        ok = (a != a and b != b) or a == b or (abs(a) != float('inf') and abs(b) != float('inf') and abs(a - b) <= 1e-12 * max(1.0, abs(b)))
         return ok, f"stdpc_n({c.tolist()})={a!r}, varpc_n**0.5={b!r}"
     return replay
 
@@ -281,7 +281,7 @@ def _replay_std(n):
         xs = [int(inputs[f"x{i}"]) for i in range(n)]
         _, c = np.unique(xs, return_counts=True)
         a, b = stats.stdpc(xs), stats.varpc_n(c) ** 0.5
-        ok = (a != a and b != b) or abs(a - b) <= 1e-12 * max(1.0, abs(b))
+        ok = (a != a and b != b) or a == b or (abs(a) != float('inf') and abs(b) != float('inf') and abs(a - b) <= 1e-12 * max(1.0, abs(b)))
         return ok, f"stdpc({xs})={a!r}, sqrt(varpc_n(counts))={b!r}"
     return replay
 
